@@ -26,7 +26,12 @@ type St = State<ResidualModel>;
 /// reference value and `to_reduced` divides by it again (two roundings)
 const GETTER_ULPS: u64 = 4;
 /// relative tolerance of the runtime support searches for "the same value" (see checks/c11.py TOL_HIST)
-const VALUE_TOL: f64 = 1e-7;
+/// Two evaluations of the same derivative with different dual number types differ by round-off only; measured over all
+/// model families (5250 states, seeds 1-25 thorough): <= max(1e-11, 4e-14 / (rho/rho_max)) — at low density the residual
+/// quantities are O(rho) while terms like ln(1 - eta) carry an absolute error of one ulp.  ~100x margin.
+fn value_tol(density_fraction: f64) -> f64 {
+    1e-9 + 2e-12 / density_fraction.max(1e-300)
+}
 /// relative tolerance of par_pure vs pure (see checks/c11.py TOL_PAR)
 const PAR_TOL: f64 = 1e-8;
 
@@ -735,7 +740,8 @@ fn run_config(c: &Config, model_name: &str, rs: &RState, full: bool, rng: &mut R
     let stress = stress(c, rs, &alpha, &claims, rng, full);
 
     json!({
-        "name": c.name, "model": model_name, "ncomp": nc, "state_TVN": rs.vars(), "alphabet": alpha.iter().map(|r| r.name()).collect::<Vec<_>>(),
+        "name": c.name, "model": model_name, "ncomp": nc, "state_TVN": rs.vars(),
+        "density_fraction": density_fraction(c, rs), "value_tol": value_tol(density_fraction(c, rs)), "alphabet": alpha.iter().map(|r| r.name()).collect::<Vec<_>>(),
         "oracle_consistency": cons, "files": nfiles,
         "exhaustive": {"max_len": maxlen, "histories": hists.len(), "vs_fresh": dev.json()},
         "random": {"histories": rhists.len(), "clones": nclones, "getter_calls": getter_calls,
@@ -807,7 +813,8 @@ fn consistency_sweep(full: bool, seed: u64, only: &Option<String>) -> Value {
                     worst = sw;
                     worst_case = case.clone();
                 }
-                if !(sw <= VALUE_TOL) && failures.len() < 5 {
+                let vtol = value_tol(density_fraction(c, &rs));
+                if !(sw <= vtol) && failures.len() < 5 {
                     // replay the witness on the real State
                     let st = mk_state(&c.model, &rs);
                     let _ = by.issue(&st);
@@ -816,7 +823,7 @@ fn consistency_sweep(full: bool, seed: u64, only: &Option<String>) -> Value {
                     let d = rel_dev(got, fresh);
                     failures.push(json!({"model": c.name, "state_TVN": rs.vars(), "history": format!("{};{}", by.name(), direct.name()),
                                          "request": direct.name(), "after_history": got, "fresh_state": fresh,
-                                         "rel_dev": if d.is_finite() { json!(d) } else { json!("inf") }, "reproduced_on_state": !(d <= VALUE_TOL),
+                                         "rel_dev": if d.is_finite() { json!(d) } else { json!("inf") }, "reproduced_on_state": !(d <= vtol), "value_tol": vtol,
                                          "oracle": case}));
                 }
             }
@@ -839,6 +846,7 @@ fn density_fraction(c: &Config, rs: &RState) -> f64 {
 // runtime support: 2-16 threads on one shared state
 
 fn stress(c: &Config, rs: &RState, alpha: &[Rq], claims: &BTreeMap<String, Vec<(String, f64)>>, rng: &mut Rng, full: bool) -> Value {
+    let vtol = value_tol(density_fraction(c, rs));
     let rounds = if full { 40 } else { 8 };
     let mut total_resp = 0usize;
     let mut runs = 0usize;
@@ -881,7 +889,7 @@ fn stress(c: &Config, rs: &RState, alpha: &[Rq], claims: &BTreeMap<String, Vec<(
                     if !allowed.get(&r.key()).map(|s| s.contains(&x.to_bits())).unwrap_or(false) {
                         // not bit-identical to any value a fresh state can produce for this key: how far off?
                         let near = claims.get(&r.key()).map(|v| v.iter().map(|(_, y)| rel_dev(*x, *y)).fold(f64::INFINITY, f64::min)).unwrap_or(f64::INFINITY);
-                        if near > VALUE_TOL {
+                        if near > vtol {
                             value_problem = true;
                         }
                         bad.push(json!({"thread": t, "request": r.name(), "value": x, "bits": x.to_bits(),
@@ -1336,6 +1344,7 @@ fn one(model_name: &str, state: &str, history: &str, extend: bool) -> Value {
         }
     }
     json!({"model": model_name, "state_TVN": rs.vars(), "history": history, "steps": steps, "extension": extension,
+           "density_fraction": density_fraction(c, &rs), "value_tol": value_tol(density_fraction(c, &rs)),
            "worst_rel_dev_from_fresh_state": if worst.is_finite() { json!(worst) } else { json!("inf") },
            "snapshots": pool.iter().map(snap_json).collect::<Vec<_>>()})
 }
@@ -1367,7 +1376,11 @@ fn main() {
     let mut files = Vec::new();
     let mut cfgs = Vec::new();
     let mut panics: Vec<Value> = Vec::new();
+    let sweep_only = cli.args.iter().any(|a| a == "--sweep-only");
     for name in names {
+        if sweep_only {
+            continue;
+        }
         if let Some(o) = &only {
             if o != name {
                 continue;
